@@ -165,7 +165,9 @@ class Tokenizer:
                 body_started = True
             # update captured lines
             if tok.start[0] not in lines:
-                lines[tok.start[0]] = tok.line if (block or lines) else tok.line[tok.start[1] :]
+                # a token spanning several lines carries all of them in `.line`: only the first one belongs here
+                line = tok.line if tok.start[0] == tok.end[0] else tok.line[: tok.line.find("\n") + 1]
+                lines[tok.start[0]] = line if (block or lines) else line[tok.start[1] :]
             if tok.end[0] - tok.start[0] > 1:
                 # a string spanning three or more lines: the lines strictly inside it belong to the body too
                 for offset, text in enumerate(tok.string.split("\n")[1:-1], 1):
